@@ -77,12 +77,23 @@ class C18Monitor(Monitor):
                 load = air.bandwidth_load.get(f.frequency_hz, 0.0)
                 cap = air.get_frequency_max_capacity_mbps(f.name)
                 mon.count("air_transmissions")
+                run.probe("c18_air_transmission")
                 if load > cap:
                     mon.pending = mon.pending or Violation("C18", "load-exceeds-bandwidth", f"wireless channel {f.name} load {load!r} > capacity {cap!r}", sig="load-exceeds-bandwidth:wireless", detail={"load": load, "capacity": cap})
                 return res
 
             return transmit
 
+        def wrap_air_can(orig):
+            def can_transmit_frame(air, frame, sender_network_interface):
+                res = orig(air, frame, sender_network_interface)
+                if not res:
+                    run.probe("c18_air_refused_frame")
+                return res
+
+            return can_transmit_frame
+
+        self.patch(AirSpace, "can_transmit_frame", wrap_air_can)
         self.patch(Link, "transmit_frame", wrap_transmit)
         self.patch(Link, "can_transmit_frame", wrap_can)
         self.patch(Link, "pre_timestep", wrap_pre)
